@@ -14,17 +14,17 @@ ModuleInit ==
   \E o0 \in Perms, fu \in BOOLEAN : \E o \in WithS(o0) : \E us \in UsesOf(o),
      t1 \in {"A", "B"}, s1 \in Spells, t2 \in {"B", "N"}, s2 \in Spells, c2 \in BOOLEAN,
      t3 \in {"A", "N"}, s3 \in Spells, c3 \in BOOLEAN :
-    prog = [ents |-> o, scope |-> "module", future |-> fu, uses |-> us, decoy |-> FALSE, fscope |-> "none", varargs |-> FALSE, igp |-> FALSE,
+    prog = [ents |-> o, scope |-> "module", future |-> fu, uses |-> us, decoy |-> FALSE, fscope |-> "none", varargs |-> FALSE, igp |-> FALSE, gen |-> FALSE,
             fields |-> << Fld("A", "f1", t1, s1, FALSE), Fld("A", "f2", t2, s2, c2), Fld("B", "g1", t3, s3, c3) >>]
 LocalInit ==
   \E d \in BOOLEAN, s1 \in Spells \ {"direct"}, s2 \in Spells \ {"direct"} :
-    prog = [ents |-> <<"A">>, scope |-> "local", future |-> FALSE, uses |-> <<"A", "A">>, decoy |-> d, fscope |-> "none", varargs |-> FALSE, igp |-> FALSE,
+    prog = [ents |-> <<"A">>, scope |-> "local", future |-> FALSE, uses |-> <<"A", "A">>, decoy |-> d, fscope |-> "none", varargs |-> FALSE, igp |-> FALSE, gen |-> FALSE,
             fields |-> << Fld("A", "f1", "A", s1, FALSE), Fld("A", "f2", "A", s2, FALSE) >>]
 \* a decorated function (module level, or nested in a factory function) whose parameter (p or *p) and return type name the
 \* module-level class B
 FuncInit ==
-  \E o \in {<<"B", "F">>, <<"F", "B">>}, fu \in BOOLEAN, fs \in {"module", "local"}, va \in BOOLEAN, ig \in BOOLEAN, s1 \in Spells, s2 \in Spells :
-    prog = [ents |-> o, scope |-> "module", future |-> fu, uses |-> <<"F", "F">>, decoy |-> FALSE, fscope |-> fs, varargs |-> va, igp |-> ig,       \* igp: declared with ignore_params=True (only the result is parsed)
+  \E o \in {<<"B", "F">>, <<"F", "B">>}, fu \in BOOLEAN, fs \in {"module", "local"}, va \in BOOLEAN, ig \in BOOLEAN, ge \in BOOLEAN, s1 \in Spells, s2 \in Spells :
+    prog = [ents |-> o, scope |-> "module", future |-> fu, uses |-> <<"F", "F">>, decoy |-> FALSE, fscope |-> fs, varargs |-> va, igp |-> ig, gen |-> ge,       \* gen: a generator function, r is its yield type (Iterator[r]); igp: declared with ignore_params=True (only the result is parsed)
             fields |-> << Fld("F", "p", "B", s1, FALSE), Fld("F", "r", "B", s2, FALSE) >>]
 \* under postponed evaluation nobody quotes names inside annotations
 MCInit == (ModuleInit \/ LocalInit \/ FuncInit) /\ OkProg(prog) /\ Init
